@@ -51,7 +51,7 @@ def ENCODED():
 def cases(tier, seed):
     ns = [2, 3, 4] if tier == "thorough" else [2, 3]
     groups = ["core"] + list(RATIOS) + ["r_squared_adj"]
-    out = [f"baseline/{n}/{g}" for n in ns for g in groups] + [f"reporting/{n}" for n in ns[:2]] + ["safe_divide/0", "daily_error/3", "gate/0", "hourly_fit/plain", "hourly_fit/adaptive", "crosshair/leaves"]
+    out = [f"baseline/{n}/{g}" for n in ns for g in groups] + [f"reporting/{n}" for n in ns[:2]] + ["safe_divide/0", "daily_error/3", "gate/0", "hourly_fit/plain", "hourly_fit/adaptive", "hourly_fit/real", "crosshair/leaves"]
     return out
 
 
@@ -439,6 +439,60 @@ def run_hourly_fit(case, kind):
     case.sample(dict(check=f"HourlyModel.{'_fit' if kind == 'plain' else '_adaptive_fit'} metrics tail", paths=len(paths)))
 
 
+# ----------------------------------------------------------------- hourly: a real fit (concrete), variants solver-chosen
+
+HR_GAPS = {"none": (), "usage gap": (("observed", 100, 104),), "temperature gap": (("temperature", 500, 503),),
+           "both": (("observed", 2000, 2006), ("temperature", 4000, 4002), ("observed", 4001, 4003))}
+
+
+def replay_hourly_real(inp):
+    """the stored baseline metrics of a fitted hourly model are the statistics of predict(baseline) over the hours that were
+    measured (no interpolated_ flag), with the number of non-zero coefficients as parameter count; poor fit <=> both
+    adjusted ratios miss their thresholds"""
+    import logging
+    logging.disable(logging.CRITICAL)
+    from . import hourlyref as H
+    m, data = H.fitted(noise=inp["noise"], gaps=HR_GAPS[inp["gaps"]], settings=(dict(elasticnet=dict(adaptive_weights=True, adaptive_weight_max_iter=3, adaptive_weight_tol=1e-4)) if inp["adaptive"] else None))
+    out = m.predict(data, ignore_disqualification=True)
+    bdf = data.df
+    flagged = bdf[[c for c in bdf.columns if c.startswith("interpolated_")]].any(axis=1)
+    p = int(np.count_nonzero(m._model.coef_) + np.count_nonzero(m._model.intercept_))
+    ref = mt.BaselineMetrics(df=out.loc[~flagged], num_model_params=p)
+    pr = []
+    if int(flagged.sum()) == 0 and inp["gaps"] != "none":
+        pr.append("the gaps of the scenario were not flagged as interpolated (scenario error)")
+    for f in ("n", "rmse", "rmse_adj", "cvrmse", "cvrmse_adj", "pnrmse", "pnrmse_adj", "mae", "mbe", "r_squared", "n_prime"):
+        a, b = getattr(m.baseline_metrics, f), getattr(ref, f)
+        if not (a == b or (a is not None and b is not None and abs(a - b) <= 1e-12 * max(1.0, abs(b)))):
+            pr.append(f"stored {f} = {a}, predict(baseline) over the {int((~flagged).sum())} measured hours gives {b}")
+    poor = not ((ref.cvrmse_adj is not None and ref.cvrmse_adj < m.settings.cvrmse_threshold) or (ref.pnrmse_adj is not None and ref.pnrmse_adj < m.settings.pnrmse_threshold))
+    has = any(w.qualified_name == "eemeter.model_fit_metrics" for w in m.disqualification)
+    if has != poor:
+        pr.append(f"poor-fit disqualification present={has}, but cvrmse_adj={ref.cvrmse_adj}, pnrmse_adj={ref.pnrmse_adj} (thresholds {m.settings.cvrmse_threshold}, {m.settings.pnrmse_threshold})")
+    return bool(pr), "; ".join(pr[:3]), poor
+
+
+def run_hourly_real(case):
+    case.inputs = []
+
+    def run():
+        inp = dict(noise=F.choose("noise", [0.05, "spiky"]), gaps=F.choose("gaps", list(HR_GAPS)), adaptive=F.choose("adaptive", [False, True]))
+        return inp, replay_hourly_real(inp)
+
+    paths = case.explore(run)
+    for p in paths:
+        if p.outcome != "ret":
+            case.rep["harness_errors"].append(f"real hourly fit raised {p.value!r}")
+            continue
+        inp, (bad, det, poor) = p.value
+        label = "a fitted hourly model stores the statistics of predict(baseline) over the measured hours; poor fit <=> both adjusted ratios miss"
+        if not case.ground(not bad, label):
+            case.violation(label, "hourly_real", inp, det)
+        case.regime("real hourly fit with interpolated hours", inp["gaps"] != "none")
+        case.regime("real hourly fit that misses both thresholds", poor)
+    case.sample(dict(entry="HourlyModel.fit (real, sklearn shim restored by the harness)", fits=len(paths)))
+
+
 # ----------------------------------------------------------------- second engine: CrossHair on the pure-Python leaves
 
 XH_SRC = '''
@@ -508,7 +562,7 @@ def run_crosshair(case):
     case.rep["paths"] += len(res)
 
 
-REPLAY = {"xhair": replay_xhair, "hourly_fit": replay_hourly_fit, "gate": replay_gate, "baseline": replay_baseline, "safe_divide": replay_safe_divide, "reporting": replay_reporting, "daily_error": replay_daily_error}
+REPLAY = {"hourly_real": (lambda inp: replay_hourly_real(inp)[:2]), "xhair": replay_xhair, "hourly_fit": replay_hourly_fit, "gate": replay_gate, "baseline": replay_baseline, "safe_divide": replay_safe_divide, "reporting": replay_reporting, "daily_error": replay_daily_error}
 
 
 def daily_error(resid, obs, wsse):
@@ -533,6 +587,8 @@ def run_case(case: Case, name: str):
         return run_safe_divide(case)
     if kind == "gate":
         return run_gate(case)
+    if kind == "hourly_fit" and name.endswith("/real"):
+        return run_hourly_real(case)
     if kind == "hourly_fit":
         return run_hourly_fit(case, name.split("/")[1])
     if kind == "crosshair":
